@@ -197,7 +197,7 @@ def oracle_c11(sc):
         return None
     ob = observed(sc)
     dispatched = [int(re.search(r'<ev>n(\d+)</ev>', e[2]).group(1)) for e in sc.S.effects[:sc.n_effects]
-                  if e[1] == 'dispatch' and re.sub(r'^<\?xml[^>]*\?>', '', e[2]).startswith('<notification')]
+                  if e[1] == 'dispatch' and re.sub(r'^<\?xml[^>]*\?>', '', e[2].strip('\0')).startswith('<notification')]
     # single consumer threads take in order: merge by global effect order
     took = [int(re.search(r'<ev>n(\d+)</ev>', e[2].notification_xml).group(1)) for e in sc.S.effects[:sc.n_effects]
             if e[1] == 'nq.get' and e[0] != 'W' and e[2] is not None]
@@ -277,7 +277,7 @@ def gen_spec(rng, pid):
     profile = 'default'
     eager = False
     if pid == 'C03':
-        profile = rng.choice(['default', 'default', 'junos', 'nexus', 'sros'])
+        profile = rng.choice(['default', 'default', 'junos', 'nexus', 'sros', 'huawei'])
         drop = set(rng.sample(order, rng.choice([0, 0, 1]))) if nreq > 1 else set()
         for k in order:
             if k in drop: continue
@@ -337,6 +337,8 @@ def gen_spec(rng, pid):
     d = dict(profile=profile, clients=clients, server=server, eager=eager)
     if pid in ('C03', 'C04', 'C11') and rng.random() < 0.2:
         d['app'] = 'reenter'
+    if profile == 'huawei' and rng.random() < 0.6:
+        d['nulpad'] = True          # NUL-padded messages, which this profile repairs
     if rng.random() < 0.3:
         d['decl'] = True            # the server writes an XML declaration in front of every message (legal, common)
     if pid == 'C14':
@@ -363,7 +365,8 @@ SMALL = {
     'C11': [dict(profile='junos', clients=[[('rpc', True), ('take', False)], [('take', True)]], server=[('notif', 1), ('reply', 0), ('notif', 2)], eager=False),
             dict(profile='default', clients=[[('rpc', True)], [('take', True), ('take', False)]], server=[('reply', 0), ('notif', 1)], eager=False),
             dict(profile='iosxr', clients=[[('rpc', True)], [('await_disc',), ('take', True), ('take', True), ('take', True)]], server=[('notif', 1), ('reply', 0), ('notif', 2), ('eof',)], eager=False),
-            dict(profile='default', decl=True, clients=[[('take', True), ('rpc', True)], [('rpc', True)]], server=[('reply', 0), ('notif', 1), ('reply', 1)], eager=False)],
+            dict(profile='default', decl=True, clients=[[('take', True), ('rpc', True)], [('rpc', True)]], server=[('reply', 0), ('notif', 1), ('reply', 1)], eager=False),
+            dict(profile='huawei', nulpad=True, clients=[[('rpc', True), ('take', False)]], server=[('notif', 1), ('reply', 0), ('notif', 2)], eager=False)],
 }
 
 def dfs_schedules(spec, bound, cap):
